@@ -172,3 +172,33 @@ func init() {
 		fmt.Println(ok, pathString(path))
 	}
 }
+
+func init() {
+	debugFuncs["summaries"] = func(p *Prog) {
+		want := os.Getenv("DLINT_FUNC")
+		for _, fn := range p.LibFuncs() {
+			if want == "" || !strings.Contains(FuncName(fn), want) {
+				continue
+			}
+			fmt.Printf("== %s writes=%d\n", FuncName(fn), len(p.TransEffects(fn, nil, nil).W))
+			for k := range p.TransEffects(fn, nil, nil).W {
+				fmt.Printf("   W %v\n", k)
+			}
+			g := NewGuardCtx(p, fn, nil)
+			for _, u := range g.universals() {
+				fmt.Printf("   univ %s\n", u.F)
+			}
+			for _, m := range []string{"true", "false", "nilerr"} {
+				for _, f := range returnFacts(p, fn, m) {
+					fmt.Printf("   %s: %s\n", m, f)
+				}
+			}
+			for _, cu := range returnUnivs(p, fn) {
+				fmt.Printf("   univ-summary key=%q edge=%d %s\n", cu.Key, cu.Edge, cu.F)
+			}
+			for _, iu := range g.importedUnivs() {
+				fmt.Printf("   imported key=%q edge=%d %s\n", iu.Key, iu.Edge, iu.F)
+			}
+		}
+	}
+}
